@@ -42,10 +42,11 @@ CertSigInfoS == SigInfoS \o <<FModel("validity_period", N(253), ValidityS, FALSE
 CertS       == [DataS EXCEPT ![4] = FModel("signature_info", N(22), CertSigInfoS, TRUE)]
 NackS       == <<FUint("nack_reason", N(801))>>
 CachePolicyS == <<FUint("cache_policy_type", N(821))>>
+\* NDNLPv2: header fields in increasing order of their type numbers (Ack 836 before TxSequence 840), the Fragment last
 LpS         == <<FUint("frag_index", N(82)), FUint("frag_count", N(83)), FBytes("pit_token", N(98)),
                  FModel("nack", N(800), NackS, FALSE), FUint("incoming_face_id", N(812)),
                  FUint("next_hop_face_id", N(816)), FModel("cache_policy", N(820), CachePolicyS, FALSE),
-                 FUint("congestion_mark", N(832)), FBytes("tx_sequence", N(840)), FBytes("ack", N(836)),
+                 FUint("congestion_mark", N(832)), FBytes("ack", N(836)), FBytes("tx_sequence", N(840)),
                  FBool("non_discovery", N(844)), FBytes("prefix_announcement", N(848)), FBytes("fragment", N(80))>>
 
 \* NDN packet format 0.3 before 2019 (module ndn_format_0_3_2017): ForwardingHint carries Delegations
